@@ -20,6 +20,7 @@ PID = "C17"
 NAN, ANYV, NOIV = 13, 99, 99
 OPS = {1: "Set", 2: "InitRaw", 3: "ByName", 4: "OptStep", 5: "Register", 6: "Sample", 7: "Closure"}
 SETTERS = (1, 3, 6, 7)
+RAWNAME = {-1: "-inf", 1: "very negative", 2: "moderate", 3: "very positive", 9: "+inf", 13: "nan"}
 
 # ---------------------------------------------------------------------------------------------
 # TLC side
@@ -102,7 +103,6 @@ def _recipes(torch, gp):
         distance_function=lambda: (lambda a, b: (a - b).pow(2).sum(-1)), targets=lambda: torch.tensor([0, 1, 2, 1]),
         noise=lambda: torch.full((4,), 0.1, dtype=torch.float64), input_size=lambda: 2,
         base_means=lambda: [M.ConstantMean(), M.ZeroMean()], num_classes=lambda: 3, num_features=lambda: 2, num_mixtures=lambda: 2,
-        noise_model=lambda: gp.models.ExactGP(None, None, L.GaussianLikelihood()) if False else None,
     )
 
 
@@ -577,7 +577,7 @@ def _run_history(torch, gp, desc, hist, seed, trace, cur, notes):
             else:
                 form = "tensor"
                 box = [concrete.clone()]
-        what = "%s(%s)" % (opn, vclass(a, lo, hi) if op in SETTERS else (a, b))
+        what = "%s(%s)" % (opn, vclass(a, lo, hi) if op in SETTERS else RAWNAME.get(a, a) if op in (2, 4) else "%s, replace=%s" % (cons[a - 1], bool(b)))
         if op == 1:
             call = lambda: setattr(owner, pub, box[0])
         elif op == 3:
@@ -734,8 +734,9 @@ def _replay_worker(item):
     for k, hist in enumerate(item["hists"]):
         seed = item["seed"] + k
         r = dict(key=[desc["cls"], desc["variant"], desc["path"], [list(s[:3]) for s in hist]], ok=True, nontrivial=nontrivial(hist), n=len(hist))
+        notes = set()
         try:
-            r["n"] = run_history(torch, gp, desc, hist, seed)
+            r["n"] = run_history(torch, gp, desc, hist, seed, None, notes)
         except Stop:
             r["stopped"] = 1
         except Fail as f:
@@ -743,12 +744,14 @@ def _replay_worker(item):
             step = f.step
             op = hist[step - 1] if step else None
             lo, hi = (hist[step - 2][6], hist[step - 2][7]) if step >= 2 else (CONS[desc["kind"]][0][0], CONS[desc["kind"]][0][1])
-            cell = "construct" if op is None else "%s:%s" % (OPS[op[0]], vclass(op[1], lo, hi) if op[0] in SETTERS else "%s" % (op[1],))
+            cell = "construct" if op is None else "%s:%s" % (OPS[op[0]], vclass(op[1], lo, hi) if op[0] in SETTERS else RAWNAME.get(op[1], op[1]) if op[0] in (2, 4) else "%d,%d" % (op[1], op[2]))
             r.update(ok=False, sig="C17/replay/%s/%s/%s" % (cellname, f.clause, cell),
                      detail="%s(%s) %s, history %s: %s" % (desc["cls"], desc["variant"], desc["path"], describe(hist), bad),
                      case=dict(kind="history", desc=desc, hist=[list(s) for s in hist], seed=seed))
         except core.Machinery:
             raise
+        if notes:
+            r["notes"] = sorted(notes)
         if k == 0 and item.get("sample"):
             r["sample"] = dict(module="%s(%s).%s" % (desc["cls"], desc["variant"], desc["path"]), constraint=desc["ctype"], history=describe(hist))
         out.append(r)
@@ -757,9 +760,12 @@ def _replay_worker(item):
 
 # ---------------------------------------------------------------------------------------------
 def run(ck):
+    import time
     thorough = ck.tier == "thorough"
     rnd = random.Random(ck.seed)
     torch, gp = _env()
+    t0, phases = time.time(), {}
+    ck.extra["phase_s"] = phases
     ck.rule = ("histories = every sequence of Set / InitializeRaw / InitializeByName / OptStep / RegisterConstraint / SampleFromPrior / "
                "SetViaPriorClosure of the Constraint.tla machine up to the run's length (2 with the full value alphabet, 4 (quick) and 5 (thorough) "
                "with reduced alphabets), replayed on constrained parameters of every exported class; non-trivial = contains an accepted "
@@ -805,6 +811,7 @@ def run(ck):
     jobs.append(((pmod, pcfg), dict(name=PID + "/priors", dump=True, check=False, workers=2, coverage=False)))
     meta.append(("priors", None, None, 0))
     results = tlc.run_many(jobs, parallel=4)
+    phases["tlc"] = round(time.time() - t0, 1)
 
     # (3) cells
     cells, report = discover(torch, gp)
@@ -846,7 +853,7 @@ def run(ck):
             pass  # prior steps register a prior through the public API where the class does not offer one
         ck.section("gen", runs=1, histories=len(hists))
         rnd.shuffle(hists)
-        per = (3 if thorough else 1)
+        per = (2 if thorough else 1)
         # every history on `per` cells, rotating so that every cell receives histories of every run
         assign = {}
         for j, h in enumerate(hists):
@@ -855,12 +862,18 @@ def run(ck):
                 assign.setdefault(ci, []).append(h)
         for ci, hs in assign.items():
             for k in range(0, len(hs), 40):
-                items.append(dict(desc=pool[ci], hists=hs[k:k + 40], seed=ck.seed * 1000003 + len(items) * 97, sample=(k == 0 and ci % 17 == 0)))
+                items.append(dict(desc=pool[ci], hists=hs[k:k + 40], seed=ck.seed * 1000003 + len(items) * 97, sample=(k == 0 and ci == 0 and (kind, name) in (("GT", "vals"), ("GT", "register"), ("IV", "setopt"), ("IV", "prior")))))
     for op, nm in OPS.items():
         if not taken.get(op):
             ck.vacuous("no generated history contains the action %s" % nm)
+    phases["parse"] = round(time.time() - t0, 1)
     results_r = core.pmap(_replay_worker, items, chunksize=2)
+    phases["replay"] = round(time.time() - t0, 1)
     stopped = sum(r.pop("stopped", 0) for r in results_r)
+    forms = set()
+    for r in results_r:
+        forms.update(r.pop("notes", ()))
+    ck.extra["setter_value_forms_refused"] = sorted(forms)      # python floats / 0-d tensors some setters do not take; retried as tensors
     ck.absorb(results_r)
     ck.section("replay", histories=len(results_r), steps=sum(r.get("n", 0) for r in results_r), open_branch_not_followed=stopped,
                cells_driven=len({(i["desc"]["cls"], i["desc"]["variant"], i["desc"]["path"]) for i in items}))
@@ -871,7 +884,9 @@ def run(ck):
 
     # (4) transform contract on the float range, (5) priors
     c17_priors.run_transforms(ck, thorough)
-    c17_priors.run_priors(ck, prior_points, thorough)
+    phases["transforms"] = round(time.time() - t0, 1)
+    c17_priors.run_priors(ck, prior_points, thorough, cells)
+    phases["priors"] = round(time.time() - t0, 1)
     c17_priors.run_observations(ck)
 
 
